@@ -520,14 +520,14 @@ theorem mfCall_changed (ow : Bool) (ms : List (MFKey × Tpl)) (name : Option Str
 
 /-- `Write.run` on a text: the file name comes from `_make_filename`, the rest is `writeCore` -/
 theorem writeVal_text (conv : Conv C) (outdir : String) (mode : WMode) (w : World C) (v : Val C) (c : C)
-    (d fn fe p : String) (hd : v.data = .text c)
+    (d fn fe p : String) (hd : v.data = .text c) (hw : v.noWrite = false)
     (hn : wmfCore outdir "output" v.out.dirname v.out.filename v.out.fileext v.out.filetype = .ok (d, fn, fe, p)) :
     writeVal conv outdir mode w v = .ok ((writeCore mode p c w v.out.changed).1,
       { v with data := .path p,
                out := { v.out with filename := some fn, fileext := some fe, filepath := some p,
                                    changed := (writeCore mode p c w v.out.changed).2 } }) := by
   unfold writeVal wMakeFilename
-  rw [hd]
+  rw [hd, hw]
   simp only [hn]
   rfl
 
@@ -628,13 +628,13 @@ theorem runPlot_eq_sepCore (conv : Conv C) (cfg : Cfg) (ms : List (MFKey × Tpl)
       subst hpc hu
       unfold runPlot memberStage
       have hv : (mfVal cfg.mf.overwrite ms (toCsvVal conv pl.name pl.data {}) : Val C)
-          = ⟨.text (conv.csvOf pl.data), pl.name, plotCtx cfg ms pl, none⟩ := rfl
+          = ⟨.text (conv.csvOf pl.data), pl.name, plotCtx cfg ms pl, none, false⟩ := rfl
       rw [hv, writeVal_text conv cfg.outdir cfg.w1 w _ (conv.csvOf pl.data) d1 fn fe pc' rfl (by rw [← hft] at h1; exact h1)]
       simp only [hch]
       unfold sepCore at hs
       simp only at hs
       exact tailStage_eq_downCore conv cfg tpl (writeCore cfg.w1 pc' (conv.csvOf pl.data) w none).1
-        ⟨.path pc', pl.name, { plotCtx cfg ms pl with filename := some fn, fileext := some fe, filepath := some pc', changed := (writeCore cfg.w1 pc' (conv.csvOf pl.data) w none).2 }, none⟩
+        ⟨.path pc', pl.name, { plotCtx cfg ms pl with filename := some fn, fileext := some fe, filepath := some pc', changed := (writeCore cfg.w1 pc' (conv.csvOf pl.data) w none).2 }, none, false⟩
         [pc'] d2 fn2 fe2 pt hft rfl h2 _ rfl rfl rfl w' oc hs
 
 
@@ -926,13 +926,13 @@ def groupTexPath (cfg : Cfg) (gms : List (MFKey × Tpl)) (gname : Option String)
 
 /-- the values that `MapGroup` collects from the members -/
 def memberVals : List (Plot × (OutCtx × String)) → List (Option Bool) → List (Val C)
-  | x :: xs, f :: fs => ⟨.path x.2.2, x.1.name, { x.2.1 with changed := f }, none⟩ :: memberVals xs fs
+  | x :: xs, f :: fs => ⟨.path x.2.2, x.1.name, { x.2.1 with changed := f }, none, false⟩ :: memberVals xs fs
   | _, _ => []
 
 theorem memberStage_eq (conv : Conv C) (cfg : Cfg) (ms : List (MFKey × Tpl)) (w : World C) (pl : Plot)
     (on : OutCtx) (pc : String) (h : memberNamed cfg ms pl = .ok (on, pc)) :
     memberStage conv cfg ms w pl = .ok ((writeCore cfg.w1 pc (conv.csvOf pl.data) w none).1,
-      ⟨.path pc, pl.name, { on with changed := (writeCore cfg.w1 pc (conv.csvOf pl.data) w none).2 }, none⟩) := by
+      ⟨.path pc, pl.name, { on with changed := (writeCore cfg.w1 pc (conv.csvOf pl.data) w none).2 }, none, false⟩) := by
   have hft : (plotCtx cfg ms pl).filetype = some "csv" := by unfold plotCtx; rw [mfCall_filetype]
   have hch : (plotCtx cfg ms pl).changed = none := by unfold plotCtx; rw [mfCall_changed]
   unfold memberNamed at h
@@ -946,7 +946,7 @@ theorem memberStage_eq (conv : Conv C) (cfg : Cfg) (ms : List (MFKey × Tpl)) (w
     subst hpc hon
     unfold memberStage
     have hv : (mfVal cfg.mf.overwrite ms (toCsvVal conv pl.name pl.data {}) : Val C)
-        = ⟨.text (conv.csvOf pl.data), pl.name, plotCtx cfg ms pl, none⟩ := rfl
+        = ⟨.text (conv.csvOf pl.data), pl.name, plotCtx cfg ms pl, none, false⟩ := rfl
     rw [hv, writeVal_text conv cfg.outdir cfg.w1 w _ (conv.csvOf pl.data) d1 fn fe pc' rfl (by rw [← hft] at h1; exact h1)]
     simp only [hch]
 
